@@ -3,6 +3,13 @@ import PqlModel.Props.C07Full
 import PqlModel.Props.C07Layout
 import PqlModel.Props.C07Keywords
 import PqlModel.Props.C07Defaults
+import PqlModel.Props.C07OperatorIRTreesA
+import PqlModel.Props.C07OperatorIRTreesB
+import PqlModel.Props.C07OperatorIRSort
+import PqlModel.Props.C07OperatorIRExtend
+import PqlModel.Props.C07OperatorIRProject
+import PqlModel.Props.C07OperatorIRLet
+import PqlModel.Props.C07OperatorIRTabular
 #print axioms Pql.C07.C07_precedence_table
 #print axioms Pql.C07.C07_spec_prec_eq_model
 #print axioms Pql.C07.C07_join_kinds
@@ -55,3 +62,24 @@ import PqlModel.Props.C07Defaults
 #print axioms Pql.Dispatch.C07_join_kind
 #print axioms Pql.Dispatch.C07_sortTerm_demo
 #print axioms Pql.Dispatch.C07_join_no_kind_needs_hyp
+#print axioms Pql.OpIR.countOperator_ir
+#print axioms Pql.OpIR.renderOperator_ir
+#print axioms Pql.OpIR.summarizeOperator_ir
+#print axioms Pql.OpIR.joinOperator_ir
+#print axioms Pql.OpIR.tabularExpr_ir
+#print axioms Pql.OpIR.firstParse_ir
+#print axioms Pql.OpIR.Parse_ir
+#print axioms Pql.OpIR.C07_countOperator_ir
+#print axioms Pql.OpIR.C07_whereOperator_ir
+#print axioms Pql.OpIR.C07_takeOperator_ir
+#print axioms Pql.OpIR.C07_asOperator_ir
+#print axioms Pql.OpIR.C07_topOperator_ir
+#print axioms Pql.OpIR.C07_sortOperator_ir
+#print axioms Pql.OpIR.C07_extendColumn_ir
+#print axioms Pql.OpIR.C07_summarizeColumn_ir
+#print axioms Pql.OpIR.C07_extendOperator_ir
+#print axioms Pql.OpIR.C07_projectOperator_ir
+#print axioms Pql.OpIR.C07_letStatement_ir
+#print axioms Pql.OpIR.C07_tabularExpr_ir
+#print axioms Pql.OpIR.C07_tabularExpr_ir_fueled
+#print axioms Pql.OpIR.tabular_fuel_cx
